@@ -422,10 +422,13 @@ class TraitSet(set):
         """
         # notifiers are transient and should not be copied
         result = TraitSet(
-            [copy.deepcopy(x, memo) for x in self],
             item_validator=copy.deepcopy(self.item_validator, memo),
             notifiers=[],
         )
+        # The items have been validated already: copy them over without
+        # validating them a second time (a validator need not accept its own
+        # results).
+        set.update(result, [copy.deepcopy(x, memo) for x in self])
 
         return result
 
